@@ -246,6 +246,37 @@ type c08Table struct {
 	Scale10 int      `json:"scale10"`
 }
 
+type c08Grid struct {
+	Kind    string  `json:"kind"` // match | mismatch
+	X       string  `json:"x"`
+	Y       string  `json:"y"`
+	Scale10 int     `json:"scale10"`
+	Grid    [][]int `json:"grid"` // grid[qa][qb], qualities 0..93
+}
+
+// dump=grid: the scores of every pair of qualities 0..93 for identical and for different plain bases
+// (ScoreGridTrace.tla decides the shape of the tables)
+func dumpGridC08(env *Env) {
+	for _, cfg := range strings.Split(env.opt("cfgs", "20:10"), ",") {
+		gs := strings.Split(cfg, ":")
+		s10, _ := strconv.Atoi(gs[1])
+		for _, pr := range []string{"aa", "cc", "gg", "tt", "ac", "ag", "at", "cg", "ct", "gt", "ca", "tg"} {
+			g := c08Grid{Kind: "mismatch", X: pr[:1], Y: pr[1:], Scale10: s10}
+			if pr[0] == pr[1] {
+				g.Kind = "match"
+			}
+			for qa := 0; qa < 94; qa++ {
+				row := make([]int, 94)
+				for qb := 0; qb < 94; qb++ {
+					row[qb] = obialign.VerifPairScore(pr[0], byte(qa), pr[1], byte(qb), float64(s10)/10)
+				}
+				g.Grid = append(g.Grid, row)
+			}
+			env.emit(g)
+		}
+	}
+}
+
 // classes "a40,c40,n20", configurations "20:10,5:10" (gap*10 : scale*10)
 func dumpTableC08(env *Env) {
 	var syms []string
@@ -978,6 +1009,10 @@ func runEventC08(ev *c08Event, wk *c08Worker) {
 }
 
 func recordC08(env *Env) {
+	if env.opt("dump", "") == "grid" {
+		dumpGridC08(env)
+		return
+	}
 	if env.opt("dump", "") == "table" {
 		dumpTableC08(env)
 		return
